@@ -129,6 +129,13 @@ Theorem C04_first_call_all_failed_refuted :
 Proof. exact first_call_all_failed_refuted. Qed.
 Print Assumptions C04_first_call_all_failed_refuted.
 
+(* a tuple with a non-finite member (OBad) is a failure: its row carries the failure marker in every objective column *)
+Example C04_example_nonfinite_member :
+  search_fixed [([mkJob 2 [(1, Num 7)] (Plain (PDict OBad None)) 9 [] []; wT], true)] =
+  Table [CP 1; CObjI 0; CObjI 1; CId; CStatus; CPareto]
+        [[Num 7; Str tokF; Str tokF; Num 2; Str 9; Str tokFalse]; [Num 6; Num 1; Num 2; Num 1; Str 9; Str tokTrue]].
+Proof. vm_compute. reflexivity. Qed.
+
 (* non-vacuity: a two-call, three-objective-free run with metadata, private keys, a NaN scalar, both dict forms *)
 Definition ex_a : job := mkJob 0 [(1, Num 3)] (Plain (PObj (ONum NaN))) 9 [(10, Str 4)] [(11, Str 4)].
 Definition ex_b : job :=
